@@ -541,6 +541,7 @@ func c07randomCase(c *Ctx, id string, rng *rand.Rand, bs []*model.Batch, modes [
 	guard(c.R, id+" twin", func() { c07twin(c, id, rng, bs[0], ts[0].seg, ts[0].m, modes[0]) })
 	pls := make([]segment.PostingsList, 3)
 	its := make([]segment.PostingsIterator, 3)
+	var susp *c07suspended
 	reqs := c.N(300, 600)
 	for q := 0; q < reqs; q++ {
 		t := ts[rng.Intn(len(ts))]
@@ -617,11 +618,41 @@ func c07randomCase(c *Ctx, id string, rng *rand.Rand, bs []*model.Batch, modes [
 		if rng.Intn(4) == 0 {
 			abandonAfter = rng.Intn(3)
 		}
+		// a walk that was suspended by an earlier request (another slot) is resumed now,
+		// after this request's objects were (re)initialised: iterators that are alive at
+		// the same time do not disturb each other
+		if susp != nil && susp.slot != slot {
+			for k := susp.pos; k < len(susp.live); k++ {
+				po, err := susp.it.Next()
+				if err != nil || po == nil {
+					c.R.Fail("iter-missing", "%s (resumed after %s): hit %d: %v, %v", susp.where, where, k, po, err)
+					return
+				}
+				if !oracle.CompareHit(c.R, susp.where+" (resumed after another request)", po, susp.live[k], susp.fl[0] || susp.fl[1] || susp.fl[2], susp.fl[2]) {
+					return
+				}
+			}
+			if po, err := susp.it.Next(); err != nil || po != nil {
+				c.R.Fail("iter-extra", "%s (resumed): after the last hit: %v, %v", susp.where, po, err)
+				return
+			}
+			c.R.Inc("c07_walks_resumed_after_another_request", 1)
+			susp = nil
+		}
+		suspendAfter := -1
+		if susp == nil && abandonAfter < 0 && len(live) >= 2 && rng.Intn(3) == 0 {
+			suspendAfter = 1 + rng.Intn(len(live)-1)
+		}
 		pos := 0 // index into live of the next candidate
 		lastDoc := int64(-1)
 		for step := 0; ; step++ {
 			if step == abandonAfter {
 				c.R.Inc("c07_walks_abandoned", 1)
+				break
+			}
+			if suspendAfter >= 0 && pos >= suspendAfter && pos < len(live) {
+				susp = &c07suspended{it: it, live: live, pos: pos, fl: fl, slot: slot, where: where}
+				its[slot], pls[slot] = nil, nil // neither the suspended iterator nor its list is recycled meanwhile
 				break
 			}
 			var po segment.Posting
@@ -779,4 +810,14 @@ func c07twin(c *Ctx, id string, rng *rand.Rand, b *model.Batch, segA segment.Seg
 			}
 		}
 	}
+}
+
+// c07suspended is a walk of the random part that was interrupted half-way.
+type c07suspended struct {
+	it    segment.PostingsIterator
+	live  []*model.Hit
+	pos   int
+	fl    [3]bool
+	slot  int
+	where string
 }
